@@ -1,5 +1,6 @@
 import GenjaxModel.Proofs.GfiCohInv
 import GenjaxModel.Proofs.GfiAssess
+import GenjaxModel.Proofs.GfiAssessCond
 /-!
 # C01 — assess is the joint log density; simulate reports score = -assess(choices) and the same retval
 
@@ -21,7 +22,8 @@ theorem C01_simulate_coherent (g : GF) (args : List Val) (t : Tr R)
 /-- A coherent trace reports `score = -assess(its choices)` and the same return value.
     `_partial`: stated for the choice map `x` the trace exposes; existence of `x` is
     `C01_simulate_choices_partial` (Cond-free programs). What is missing for programs with Cond:
-    `assess` evaluates both branches on the merged choice map (proved only by correspondence). -/
+    `assess` evaluates both branches on the merged choice map (proved only by correspondence).
+    Superseded by `C01_coherent_assess` below, which has no `condFree` hypothesis. -/
 theorem C01_coherent_assess_partial (g : GF) (hg : g.condFree = true) (args : List Val) (t : Tr R)
     (h : g.Coh P args t) (x : CM) (hx : t.choices = some x) :
     g.assess P x args = some (-t.score, t.retval) := coh_assess_partial P g hg args t h x hx
@@ -43,5 +45,80 @@ theorem C01_coherent_assess_needs_choices :
     ∃ (g : GF) (args : List Val) (t : Tr R), g.condFree = true ∧ g.Coh P args t ∧
       ¬ ∃ x, t.choices = some x ∧ g.assess P x args = some (-t.score, t.retval) :=
   coh_assess_counterexample P
+
+/-! ## Programs with Cond (supersedes the `_partial` theorems above)
+
+`get_choices()` of a Cond trace merges the two branch maps leafwise by the check and
+`Cond.assess` evaluates both branches on the merged map; `Proofs/GfiAssessCond.lean` shows that the
+selected branch reads from the merged map exactly what it reads from its own map, and that the other
+branch does not raise on it. -/
+
+/-- A coherent trace reports `score = -assess(its choices)` and the same return value — EVERY
+    program, Cond at any depth (inside Fn, Vmap, Scan, Cond of Cond).  Hypothesis `hx` is exactly
+    "`get_choices()` does not raise" (see `C01_coherent_assess_needs_choices`, and
+    `C01_simulate_choices_skel` for when it holds).
+    Supersedes `C01_coherent_assess_partial` (which needed `g.condFree`). -/
+theorem C01_coherent_assess (g : GF) (args : List Val) (t : Tr R)
+    (h : g.Coh P args t) (x : CM) (hx : t.choices = some x) :
+    g.assess P x args = some (-t.score, t.retval) := coh_assess P g args t h x hx
+
+/-- The property's statement, end to end, for every program: whenever the simulated trace has a
+    choice map, `assess` on it under the same arguments returns `(-score, retval)`.
+    Supersedes `C01_simulate_score_assess_partial`. -/
+theorem C01_simulate_score_assess (g : GF) (args : List Val) (t : Tr R)
+    (h : g.simulate P args = some t) (x : CM) (hx : t.choices = some x) :
+    g.assess P x args = some (-t.score, t.retval) :=
+  coh_assess P g args t (simulate_coh P g args t h) x hx
+
+/-- When does the simulated trace have a choice map?  Its skeleton (leaf values forgotten) is the
+    program's static skeleton `g.skel` — as partial values: `get_choices()` raises iff some Cond of
+    the program has branches whose choice-map shapes do not merge (`g.skel = none`).
+    Supersedes `C01_simulate_choices_partial`. -/
+theorem C01_simulate_choices_skel (g : GF) (args : List Val) (t : Tr R)
+    (h : g.simulate P args = some t) : t.choices.map CM.skel = g.skel :=
+  simulate_choices_skel P g args t h
+
+/-- End to end without a hypothesis on the trace: programs whose Cond branches are compatible. -/
+theorem C01_simulate_score_assess_compat (g : GF) (hs : g.skel.isSome) (args : List Val)
+    (t : Tr R) (h : g.simulate P args = some t) :
+    ∃ x, t.choices = some x ∧ g.assess P x args = some (-t.score, t.retval) := by
+  obtain ⟨x, hx⟩ := choices_of_skel (simulate_choices_skel P g args t h) hs
+  exact ⟨x, hx, C01_simulate_score_assess P g args t h x hx⟩
+
+/-- … and incompatible branches make `get_choices()` raise on every simulated trace. -/
+theorem C01_simulate_choices_raises (g : GF) (hs : g.skel = none) (args : List Val)
+    (t : Tr R) (h : g.simulate P args = some t) : t.choices = none := by
+  have := simulate_choices_skel P g args t h
+  rw [hs] at this
+  simpa using this
+
+/-! Non-vacuity: a Cond whose two branches are Fn bodies sharing the address `"x"` (the false
+    branch has a further address `"y"`), integer weights: `condExG`, `condExP` of
+    `Proofs/GfiAssessCond.lean`. -/
+
+/-- `simulate` succeeds and the trace has a (merged) choice map: `"x"` from the taken branch,
+    `"y"` from the other one. -/
+example : ∃ t, condExG.simulate condExP [.num 1, .num 7] = some t ∧
+    t.choices = some (.node (.cons "x" (.leaf (.num 4)) (.cons "y" (.leaf (.num 8)) .nil))) :=
+  ⟨_, rfl, rfl⟩
+
+example : condExG.skel.isSome := rfl
+
+/-- the conclusion of `C01_simulate_score_assess` on that instance, computed -/
+example : ∃ t x, condExG.simulate condExP [.num 1, .num 7] = some t ∧ t.choices = some x ∧
+    condExG.assess condExP x [.num 1, .num 7] = some (9, .num 4) ∧ t.score = -9 :=
+  ⟨_, _, rfl, rfl, rfl, rfl⟩
+
+/-- Cond at depth (`condExDeep`: a Fn calling a Scan of a Cond — the branch alternates from step to
+    step — and a Vmap of a Cond of a Cond, lanes taking different branches): hypotheses and
+    conclusion of `C01_simulate_score_assess` on a concrete instance -/
+example : ∃ t x, condExDeep.simulate condExP condExDeepArgs = some t ∧ t.choices = some x ∧
+    condExDeep.assess condExP x condExDeepArgs = some (-t.score, t.retval) :=
+  (simulateAssessCheck_iff _ _ _).mp (by decide +kernel)
+
+example : condExDeep.skel.isSome := rfl
+
+/-- incompatible branches (a Distribution against a Fn): no skeleton, `get_choices()` raises -/
+example : (GF.cond (.dist 0) (.fn (.ret (.const 0)))).skel = none := rfl
 
 end Genjax
